@@ -769,7 +769,7 @@ def run_get_atoms(case):
 
     q = query_array(case, Q32, single, o)
     if scalar:
-        if case.get("r_int") and radii[0] == int(radii[0]):
+        if case.get("r_int") and math.isfinite(radii[0]) and radii[0] == int(radii[0]):
             rad_arg = int(radii[0])
             o.label("r_int")
         else:
@@ -952,7 +952,7 @@ def run_adjacency(case):
         o.label("cells>=2")
     o.label("n>=5" if nsel >= 5 else "n<5")
     thr_arg = thr
-    if case.get("r_int") and thr == int(thr):
+    if case.get("r_int") and math.isfinite(thr) and thr == int(thr):
         thr_arg = int(thr)  # docstring example: create_adjacency_matrix(5)
         o.label("r_int")
     accepted = refusal_classes(o, ctx, None, [thr], [float(np.max(tol))])
@@ -1389,7 +1389,7 @@ def st_get_atoms(periodic):
             if case["scalar_radius"] or case["single"]:
                 j = draw(st.integers(0, m - 1))
                 r = draw(st_radius(case, ds[j], diam))
-                if case.get("r_int"):
+                if case.get("r_int") and math.isfinite(r):
                     r = float(math.ceil(r))  # passed as a python int (docstring examples)
                 case["radii"] = [r] * m
                 case["radius_np_scalar"] = draw(st.booleans())
@@ -1450,7 +1450,7 @@ def st_adjacency(tier):
         i = int(idx[draw(st.integers(0, len(idx) - 1))])
         ds = _query_distances(case, [[float(x) for x in A32[i]]])
         r = draw(st_radius(case, ds[0], diam))
-        if case.get("r_int"):
+        if case.get("r_int") and math.isfinite(r):
             r = float(math.ceil(r))
         if periodic and not draw(_chance(4)):
             hmin = float(box_heights(B32.astype(np.float64)).min())
